@@ -112,6 +112,7 @@ def check(case, ctx):
     w_arg = None if weights is None else (weights[0] if len(weights) == 1 else weights)
     P = lambda a: vbuild.present(a, case.get("container"))  # noqa: E731
     pc = tuple(P(c) for c in coords)
+    pc = vbuild.maybe_stack(pc, vbuild.stack_flag(case))
     pd_arg = P(d_arg) if not isinstance(d_arg, tuple) else tuple(P(x) for x in d_arg)
     pw_arg = None if w_arg is None else (P(w_arg) if not isinstance(w_arg, tuple) else tuple(P(x) for x in w_arg))
     if vbuild.plain_flag(case):
